@@ -2,6 +2,7 @@ package main
 
 import (
 	"fmt"
+	"strings"
 	"go/token"
 	"go/types"
 
@@ -176,9 +177,17 @@ func (m *Machine) block(s *State, f *Frame) []*State {
 	return succ
 }
 
+var skipGoPatterns = []string{"notificationsTrimmer).run", "wal.trimmer).run", "(*github.com/oxia-db/oxia/server/wal.trimmer).run"}
+
 func (m *Machine) spawn(s *State, fn *ssa.Function, args, free []Value) {
 	if fn == nil || fn.Blocks == nil {
 		return
+	}
+	for _, p := range append(append([]string(nil), skipGoPatterns...), m.skipGo...) {
+		if strings.Contains(fn.String(), p) {
+			m.stubs["goroutine not started in this harness (checked by its own harness / played by the harness): "+p]++
+			return
+		}
 	}
 	m.funcsSeen[fn.String()]++
 	fr := &Frame{fn: fn, env: map[ssa.Value]Value{}, blk: fn.Blocks[0], loops: map[int]int{}}
